@@ -19,6 +19,13 @@ import AsyncsshModel.Model.KexHash
   Cryptography is a parameter (`Crypto`): hash per kex method, host-key signature, the client's host-key
   trust decision, and the results of the DH / ECDH / KEM / RSA computations.  No law about them is built in;
   the theorems state the laws they need as hypotheses.
+  The server host key algorithm is the eighth negotiated name: a server signs with the algorithm chosen for
+  *its own connection* (`choose_server_host_key` works on a private copy of the listener's key pair), puts
+  that algorithm's signature name in front of the signature (`SSHKey.sign`), and a client refuses a host key
+  that cannot be used with the negotiated algorithm (`_validate_host_key(.., key_alg)`) or a signature made
+  with another one (`validate_server_host_key`).  The behaviour before these repairs is kept as
+  `serverStepPreFix` (signature algorithm read from the key pair object all connections of a listener share)
+  and `clientVerifyPreFix` (no comparison with the negotiation).
   Cleartext packet framing (length, padding) is not part of this model (C02 covers it): messages are payloads.
 -/
 namespace AsyncsshModel.Kex
@@ -66,12 +73,15 @@ structure Crypto where
   hashOf : Name → Bytes → Bytes
   /-- `key.verify(h, sig)` for the key decoded from a host key blob -/
   verify : Bytes → Bytes → Bytes → Bool
-  /-- `validate_server_host_key(key_data)` succeeds (the client's trust decision, property C04) -/
+  /-- `_validate_host_key(.., key_data)` succeeds (the client's trust decision, property C04) -/
   trusted : Bytes → Bool
+  /-- the host key algorithms a host key blob can be used with: `cert.host_key_algorithms` of the decoded
+      certificate, `key.sig_algorithms` of the decoded plain key -/
+  keyAlgs : Bytes → List Name
   /-- server: `public_data` of the key chosen for a host key algorithm -/
   hostKeyOf : Name → Bytes
-  /-- server: `host_key.sign(h)` -/
-  sign : Name → Bytes → Bytes
+  /-- server: `sign_ssh(h, sig_algorithm)`, the part of `host_key.sign(h)` after the algorithm name -/
+  signRaw : Name → Bytes → Bytes
   /-- client: `DH(g, p).get_public()`; `none` = the constructor raised -/
   dhClientPub : Int → Int → Option Int
   /-- client: `MPInt(dh.get_shared(f))`; `none` = the library raised -/
@@ -86,8 +96,9 @@ structure Crypto where
   ecServer : Name → Bytes → Option (Bytes × Bytes)
   /-- server: transient RSA key blob -/
   rsaTransKey : Bytes
-  /-- client: `(encrypted_k, MPInt(k))`; `none` = the transient key blob does not decode -/
-  rsaEncrypt : Bytes → Option (Bytes × Bytes)
+  /-- client: `(encrypted_k, MPInt(k))`, or what `_process_pubkey` raises: ProtocolError when the transient
+      key blob does not decode or is not an RSA key, KeyExchangeFailed when the encryption fails -/
+  rsaEncrypt : Bytes → Except Err (Bytes × Bytes)
   /-- server: `MPInt(k)` recovered from the ciphertext, or the error raised -/
   rsaDecrypt : Bytes → Except Err Bytes
 
@@ -126,10 +137,38 @@ def onDisconnect (body : Bytes) : Err :=
   | some (code, b) =>
     match getString b with
     | none => .proto
-    | some (_, b) =>
+    | some (reason, b) =>
       match getString b with
       | none => .proto
-      | some (_, b) => if b.isEmpty then .disconnect code else .proto
+      | some (lang, b) =>
+        if !b.isEmpty then .proto
+        else if validUtf8 reason && isAscii lang then .disconnect code
+        else .proto                 -- 'Invalid disconnect message'
+
+/-- `_process_ignore`, `_process_unimplemented`, `_process_debug`: the body of a transport-generic message is
+    decoded (`cisco` = `b'Cisco' in self._server_version`, the one case in which IGNORE is not);
+    `false` = PacketDecodeError / 'Invalid debug message', both reported as ProtocolError -/
+def genericBodyOk (cisco : Bool) (t : Nat) (body : Bytes) : Bool :=
+  if t = Gen.C03.MSG_IGNORE then
+    cisco || (match getString body with
+      | some (_, b) => b.isEmpty
+      | none => false)
+  else if t = Gen.C03.MSG_UNIMPLEMENTED then
+    match getUInt32 body with
+    | some (_, b) => b.isEmpty
+    | none => false
+  else
+    match getBoolean body with
+    | none => false
+    | some (_, b) =>
+      match getString b with
+      | none => false
+      | some (msg, b) =>
+        match getString b with
+        | none => false
+        | some (lang, b) => b.isEmpty && validUtf8 msg && isAscii lang
+
+def mentionsCisco (serverVersion : Bytes) : Bool := hasInfix (strBytes "Cisco") serverVersion
 
 /-! ### client -/
 
@@ -185,7 +224,7 @@ def clientStartKex (cr : Crypto) (st : CState) (n : Negotiated) (info : KexInfo)
   match info.form with
   | .dh =>
     match cr.dhClientPub info.g info.p with
-    | none => st.fail .internal
+    | none => st.fail .proto          -- 'Invalid kex DH group' (`_perform_init`)
     | some e =>
       match encMPInt? e with
       | none => st.fail .internal
@@ -204,7 +243,7 @@ def clientOnKexInit (cr : Crypto) (cfg : Cfg) (st : CState) (m body : Bytes) : C
   match st.phase with
   | .kexinit =>
     match parseKexInit body with
-    | none => st.fail .internal     -- PacketDecodeError inside the asynchronous handler reaches `internal_error()`
+    | none => st.fail .proto        -- PacketDecodeError in the handler task is reported as ProtocolError
     | some peer =>
       let strict := peerStrict true peer
       if strict && st.seq != 0 then st.fail .proto
@@ -220,24 +259,50 @@ def clientOnKexInit (cr : Crypto) (cfg : Cfg) (st : CState) (m body : Bytes) : C
   | .accepted => ({ st with phase := .outOfScope }, [])
   | _ => st.fail .proto                 -- 'Key exchange already in progress'
 
-/-- the end of `_process_reply` / `_process_done`: trust decision, shared secret, hash, signature, NEWKEYS -/
+/-- the algorithm named at the front of a signature blob (`SSHPacket(sig).get_string()`) -/
+def sigAlgName (sig : Bytes) : Option Name := (getString sig).map (·.1)
+
+/-- shared secret, hash, signature, NEWKEYS: what follows `validate_server_host_key` in `_process_reply` /
+    `_process_done` -/
+def clientFinish (cr : Crypto) (cfg : Cfg) (st : CState) (n : Negotiated) (hostKey : Bytes)
+    (shared : Except Err (KexBody × Bytes)) (sig : Bytes) : COut :=
+  match shared with
+  | .error e => st.fail e
+  | .ok (body, k) =>
+    match ownKexInit true cfg with
+    | some ic =>
+      let view : HashFields := { pre := ⟨cfg.version, st.vs, ic, st.is⟩, hostKey := hostKey, body := body, k := k }
+      match hashInput? view with
+      | none => st.fail .internal
+      | some hi =>
+        if cr.verify hostKey (cr.hashOf n.kex hi) sig then
+          ({ st with phase := .accepted, hostKey := hostKey, k := k, acc := some ⟨view, n, sig⟩ }, [newkeysMsg])
+        else st.fail .kexFailed
+    | none => st.fail .internal
+
+/-- the end of `_process_reply` / `_process_done`.  `validate_server_host_key(key_data, sig)`: the host key
+    must be usable with the negotiated host key algorithm and trusted (HostKeyNotVerifiable), the signature
+    must name the signature algorithm of the negotiated host key algorithm (KeyExchangeFailed); then the
+    shared secret, the hash, the signature check and NEWKEYS -/
 def clientVerify (cr : Crypto) (cfg : Cfg) (st : CState) (hostKey : Bytes)
     (shared : Except Err (KexBody × Bytes)) (sig : Bytes) : COut :=
-  if !cr.trusted hostKey then st.fail .hostKey
-  else
-    match shared with
-    | .error e => st.fail e
-    | .ok (body, k) =>
-      match st.negInfo, ownKexInit true cfg with
-      | some (n, _), some ic =>
-        let view : HashFields := { pre := ⟨cfg.version, st.vs, ic, st.is⟩, hostKey := hostKey, body := body, k := k }
-        match hashInput? view with
-        | none => st.fail .internal
-        | some hi =>
-          if cr.verify hostKey (cr.hashOf n.kex hi) sig then
-            ({ st with phase := .accepted, hostKey := hostKey, k := k, acc := some ⟨view, n, sig⟩ }, [newkeysMsg])
-          else st.fail .kexFailed
-      | _, _ => st.fail .internal
+  match st.negInfo with
+  | none => st.fail .internal
+  | some (n, _) =>
+    if !(cr.keyAlgs hostKey).contains n.hostKey then st.fail .hostKey      -- 'Host key algorithm mismatch'
+    else if !cr.trusted hostKey then st.fail .hostKey
+    else if sigAlgName sig != some (sigAlgFor n.hostKey) then st.fail .kexFailed
+    else clientFinish cr cfg st n hostKey shared sig
+
+/-- the same before the repair: neither the key type nor the signature algorithm was compared with the
+    negotiation (any algorithm the key class supports verified) -/
+def clientVerifyPreFix (cr : Crypto) (cfg : Cfg) (st : CState) (hostKey : Bytes)
+    (shared : Except Err (KexBody × Bytes)) (sig : Bytes) : COut :=
+  match st.negInfo with
+  | none => st.fail .internal
+  | some (n, _) =>
+    if !cr.trusted hostKey then st.fail .hostKey
+    else clientFinish cr cfg st n hostKey shared sig
 
 /-- the three-field reply `String(K_S) ‖ key ‖ String(sig)` with an mpint key -/
 def parseDhReply (body : Bytes) : Option (Bytes × Int × Bytes) :=
@@ -300,7 +365,7 @@ def clientOnKex (cr : Crypto) (cfg : Cfg) (st : CState) (n : Negotiated) (info :
             if !b.isEmpty then st.fail .proto
             else
               match cr.dhClientPub g p with
-              | none => st.fail .internal
+              | none => st.fail .proto        -- the library refuses the group: 'Invalid kex DH group'
               | some e =>
                 match encMPInt? e with
                 | none => st.fail .internal
@@ -329,8 +394,8 @@ def clientOnKex (cr : Crypto) (cfg : Cfg) (st : CState) (n : Negotiated) (info :
           if !b.isEmpty then st.fail .proto
           else
             match cr.rsaEncrypt trans with
-            | none => st.fail .proto
-            | some (encK, k) =>
+            | .error e => st.fail e
+            | .ok (encK, k) =>
               match encString? encK with
               | none => st.fail .internal
               | some eb => ({ st with phase := .rsaDone, hostKey := hk, trans := trans, encK := encK, k := k },
@@ -364,7 +429,7 @@ def clientStep (cr : Crypto) (cfg : Cfg) (st : CState) (m : Bytes) : COut :=
   | .version => clientOnLine cfg st m
   | _ =>
     match m with
-    | [] => st.fail .internal
+    | [] => st.fail .proto          -- `packet.get_byte()` on an empty payload: PacketDecodeError
     | tb :: body =>
       let t := tb.toNat
       bumpC <|
@@ -378,7 +443,8 @@ def clientStep (cr : Crypto) (cfg : Cfg) (st : CState) (m : Bytes) : COut :=
         | _, _ => st.fail .proto          -- 'Key exchange not in progress'
       else if st.strict && isTransportGeneric t then st.fail .proto
       else if t = Gen.C03.MSG_DISCONNECT then st.fail (onDisconnect body)
-      else if isTransportGeneric t then (st, [])
+      else if isTransportGeneric t then
+        (if genericBodyOk (mentionsCisco st.vs) t body then (st, []) else st.fail .proto)
       else if t = Gen.C03.MSG_NEWKEYS then
         if !body.isEmpty then st.fail .proto
         else match st.phase with
@@ -405,6 +471,7 @@ structure SState where
   vc : Bytes := []
   ic : Bytes := []
   negInfo : Option (Negotiated × KexInfo) := none
+  /-- the host key algorithm `choose_server_host_key` selected on this connection's own copy of the key pair -/
   hostAlg : Name := []
   p : Int := 0
   g : Int := 0
@@ -448,7 +515,7 @@ def serverOnKexInit (cr : Crypto) (cfg : Cfg) (st : SState) (m body : Bytes) : S
   match st.phase with
   | .kexinit =>
     match parseKexInit body with
-    | none => st.fail .internal
+    | none => st.fail .proto
     | some peer =>
       let strict := peerStrict false peer
       if strict && st.seq != 0 then st.fail .proto
@@ -459,11 +526,15 @@ def serverOnKexInit (cr : Crypto) (cfg : Cfg) (st : SState) (m body : Bytes) : S
           match kexInfo n.kex with
           | none => st.fail .internal
           | some info =>
-            let hostAlg := (chooseHostKeyAlg cfg.algs.hostKey peer.hostKeyAlgs).getD []
-            serverStartKex cr { st with ic := m, strict := strict, negInfo := some (n, info), hostAlg := hostAlg,
+            serverStartKex cr { st with ic := m, strict := strict, negInfo := some (n, info), hostAlg := n.hostKey,
                                         ignoreFirst := ignoreFirstKex peer n.kex } info
   | .sentNewkeys => ({ st with phase := .outOfScope }, [])
   | _ => st.fail .proto
+
+/-- `host_key.sign(h)` = `SSHKey.sign(h, sig_algorithm)`: the signature algorithm that belongs to the host key
+    algorithm of the key pair, as a string, followed by the signature proper; `none` = not encodable -/
+def hostKeySign (cr : Crypto) (hostAlg : Name) (h : Bytes) : Option Bytes :=
+  (encString? (sigAlgFor hostAlg)).map (· ++ cr.signRaw (sigAlgFor hostAlg) h)
 
 /-- `_perform_reply` / the end of `_process_secret`: hash, sign, reply, NEWKEYS -/
 def serverSign (cr : Crypto) (cfg : Cfg) (st : SState) (body : KexBody) (k : Bytes)
@@ -476,12 +547,14 @@ def serverSign (cr : Crypto) (cfg : Cfg) (st : SState) (body : KexBody) (k : Byt
     | none => st.fail .internal
     | some hi =>
       let h := cr.hashOf n.kex hi
-      let sig := cr.sign st.hostAlg h
-      match reply hostKey sig with
+      match hostKeySign cr st.hostAlg h with
       | none => st.fail .internal
-      | some r =>
-        ({ st with phase := .sentNewkeys, acc := some ⟨view, n, sig⟩,
-                    signedRecs := (⟨view, n, sig⟩, hi) :: st.signedRecs }, [r, newkeysMsg])
+      | some sig =>
+        match reply hostKey sig with
+        | none => st.fail .internal
+        | some r =>
+          ({ st with phase := .sentNewkeys, acc := some ⟨view, n, sig⟩,
+                      signedRecs := (⟨view, n, sig⟩, hi) :: st.signedRecs }, [r, newkeysMsg])
   | _, _ => st.fail .internal
 
 /-- `_send_reply` of the DH family -/
@@ -589,7 +662,7 @@ def serverStep (cr : Crypto) (cfg : Cfg) (st : SState) (m : Bytes) : SOut :=
   | .version => serverOnLine cfg st m
   | _ =>
     match m with
-    | [] => st.fail .internal
+    | [] => st.fail .proto          -- `packet.get_byte()` on an empty payload: PacketDecodeError
     | tb :: body =>
       let t := tb.toNat
       bumpS <|
@@ -602,7 +675,8 @@ def serverStep (cr : Crypto) (cfg : Cfg) (st : SState) (m : Bytes) : SOut :=
         | _, _ => st.fail .proto
       else if st.strict && isTransportGeneric t then st.fail .proto
       else if t = Gen.C03.MSG_DISCONNECT then st.fail (onDisconnect body)
-      else if isTransportGeneric t then (st, [])
+      else if isTransportGeneric t then
+        (if genericBodyOk (mentionsCisco cfg.version) t body then (st, []) else st.fail .proto)
       else if t = Gen.C03.MSG_NEWKEYS then
         if !body.isEmpty then st.fail .proto
         else match st.phase with
@@ -610,6 +684,51 @@ def serverStep (cr : Crypto) (cfg : Cfg) (st : SState) (m : Bytes) : SOut :=
           | _ => st.fail .proto
       else if isUnknownType t then (if st.strict then st.fail .proto else (st, [unimplMsg st.seq]))
       else st.fail .proto
+
+/-! ### several connections of one listener
+
+  Every connection a listener accepts is created with the same options object, hence the same host key pair
+  objects.  After the repair nothing a connection does touches them: `Listener.step` moves one connection and
+  leaves the other alone.  Before the repair `choose_server_host_key` stored the chosen algorithm in the shared
+  key pair (`set_sig_algorithm`) at KEXINIT time and the signature, made when the client's INIT arrives, read it
+  from there: `serverStepPreFix` runs a step with `hostAlg` taken from, and written back to, that shared cell. -/
+
+/-- two connections accepted by one listener (any two of them) -/
+structure Listener where
+  a : SState
+  b : SState
+
+inductive LEv
+  | toA (m : Bytes)
+  | toB (m : Bytes)
+  deriving Repr
+
+def Listener.init (cfg : Cfg) : Listener := { a := (serverInit cfg).1, b := (serverInit cfg).1 }
+
+def Listener.step (cr : Crypto) (cfg : Cfg) (l : Listener) : LEv → Listener
+  | .toA m => { l with a := (serverStep cr cfg l.a m).1 }
+  | .toB m => { l with b := (serverStep cr cfg l.b m).1 }
+
+def Listener.run (cr : Crypto) (cfg : Cfg) (evs : List LEv) : Listener :=
+  evs.foldl (Listener.step cr cfg) (Listener.init cfg)
+
+/-- one delivery before the repair: the signature algorithm lives in the key pair object shared by all
+    connections (`shared`), whatever this connection chose earlier -/
+def serverStepPreFix (cr : Crypto) (cfg : Cfg) (shared : Name) (st : SState) (m : Bytes) : Name × SOut :=
+  let o := serverStep cr cfg { st with hostAlg := shared } m
+  (o.1.hostAlg, o)
+
+structure ListenerPreFix where
+  shared : Name
+  a : SState
+  b : SState
+
+def ListenerPreFix.step (cr : Crypto) (cfg : Cfg) (l : ListenerPreFix) : LEv → ListenerPreFix
+  | .toA m => let r := serverStepPreFix cr cfg l.shared l.a m; { l with shared := r.1, a := r.2.1 }
+  | .toB m => let r := serverStepPreFix cr cfg l.shared l.b m; { l with shared := r.1, b := r.2.1 }
+
+def ListenerPreFix.run (cr : Crypto) (cfg : Cfg) (shared0 : Name) (evs : List LEv) : ListenerPreFix :=
+  evs.foldl (ListenerPreFix.step cr cfg) { shared := shared0, a := (serverInit cfg).1, b := (serverInit cfg).1 }
 
 /-! ### the three parties -/
 
